@@ -20,6 +20,10 @@ Clauses ==
   \cup (IF Rejected /\ MinerOn /\ follows /\ net.pc = "done" /\ net.quiet /\ ~O.b_served
         THEN {"C09:chain_state_held_before_a_rejected_block_is_not_left_as_it_was"} ELSE {})
   \cup (IF XValidated /\ XValid /\ ~O.x_on_disk THEN {"C09:accepted_block_not_written_to_the_store"} ELSE {})
+  \* the miner took its snapshot after the delivered block had been published (its found block is a child of X): X was the new head when it was
+  \* accepted, whatever has been published on top of it since -- it is relayed
+  \cup (IF XValidated /\ XValid /\ MinerOn /\ follows /\ net.pc = "done" /\ X \in miner.snap /\ ~O.x_bcast
+        THEN {"C09:accepted_block_that_was_the_new_head_is_not_relayed"} ELSE {})
   \cup (IF MinerOn /\ ~O.b_on_disk THEN {IF follows /\ ~ModelOut.b_on_disk THEN "C12:found_block_dropped_from_the_write_buffer_by_a_concurrent_rejection"
                                          ELSE "C12:found_block_not_written_to_store"} ELSE {})
   \cup (IF MinerOn /\ ~O.b_bcast THEN {"C12:found_block_not_broadcast"} ELSE {})
